@@ -9,7 +9,8 @@ CHECKS = {
         'text': 'Every (ending scenario x configured status x output mode) cell is executed through the real MainProgram with '
                 'several action exit codes/outputs; the observed (identifier, exit code, stream) triple is compared with the '
                 'documented table hard-coded in the harness. Held = on every executed cell; nothing is claimed for scenarios '
-                'outside the 21 endings.',
+                'outside the 21 endings.'
+                ' Added: a failing assertion followed by an error in [cleanup] (documented: an error, not a failed test).',
         'note': _TB,
     },
     'C01': {
@@ -19,7 +20,8 @@ CHECKS = {
                 '(failing step x position x kind, singly and combined with a failing cleanup instruction, n<=2 exhaustively; '
                 'n=3 and random multi-fault plans in thorough) x status x {normal, act-only}. The recorded event trace and the '
                 'result are judged by six independent trace predicates (validation-before-main, order, halt, cleanup exactly '
-                'once with the right previous phase, outcome names earliest failing or cleanup step with its kind, SKIP).',
+                'once with the right previous phase, outcome names earliest failing or cleanup step with its kind, SKIP).'
+                ' Symbol-validation faults also through definitions (value refers to an undefined symbol, name defined twice, reference violating its type restriction).',
         'note': _TB + '; stubs subclass the public instruction classes, so real instructions that misreport their own results are out of scope',
     },
     'C04': {
@@ -28,7 +30,8 @@ CHECKS = {
         'text': 'Every single fault plan (n<=2) x keep is executed with stubs that snapshot sandbox layout, cwd, tmp/ and result/ at '
                 'every step; after return sandbox removal / retention, cwd, os.environ and putenv audit events are checked. '
                 'Real CLI runs of generated cases with cd/env/chmod/tree disturbances x 10 endings x --keep repeat the '
-                'after-return and result/-contents checks on real instructions.',
+                'after-return and result/-contents checks on real instructions.'
+                ' Also: the directory Exactly was started in removed during the run.',
         'note': _TB + '; root user: read-only directories cannot obstruct removal here',
     },
     'C13': {
@@ -45,7 +48,8 @@ CHECKS = {
         'technique': 'runtime monitoring: execution log written by the generated cases + reporter output parsers, checked offline against a reference enumeration',
         'text': 'Generated suite hierarchies (all 11 verdict classes at 5 positions, 82 invalid-suite trees, ordering trees, seeded random trees) '
                 'are run through the real CLI with both reporters; the log of executed cases, exit code, progress events and JUnit XML are '
-                'compared with a reference model of enumeration order, validity and success classification.',
+                'compared with a reference model of enumeration order, validity and success classification.'
+                ' Quoted entries holding pattern characters or spaces are plain file names.',
         'note': _TB + '; bracket globs, dot-files, symlinked suites used validly and absolute entries are left out (see evidence assumptions)',
     },
     'C20': {
@@ -65,7 +69,8 @@ CHECKS = {
                 'file, including chain, description) with their generating structure; documents are executed in every admissible '
                 'permutation of their phase blocks and the execution log compared with the reference order; planted defects must be '
                 'reported with file, line, text and chain; cycles/unknown phases must be errors. ParseSource invariant checked after '
-                'every mutation of every ParseSource object.',
+                'every mutation of every ParseSource object.'
+                ' [act] declared several times is also EXECUTED (source actor); inclusion cycles back to the root file are checked with the located chain.',
         'note': _TB + '; only complete instructions are generated (an incomplete one may absorb following lines: outside the quantifier)',
     },
     'C12': {
@@ -74,7 +79,8 @@ CHECKS = {
         'text': 'Every relativity x suffix shape x chains of path definitions (depth<=2 exhaustively, 1566 chains) is rendered through a probe at '
                 'use points separated by cd instructions and compared with root+suffix (cd at time of use); every creating instruction form x '
                 'relativity/symbol chain is run and must be rejected/accepted as documented while snapshots and audit events show the home '
-                'directories untouched.',
+                'directories untouched.'
+                ' Also: path symbols reaching a suffix through 1-4 string definitions; a leading path-symbol reference followed by a suffix with an absolute part.',
         'note': _TB + '; `..`/symlinks not generated; three open known findings about absolute path parts (doc/BUGS.rst)',
     },
     'C17': {
@@ -83,7 +89,8 @@ CHECKS = {
         'text': 'Lists of <=4 setter/observer cases are run alone and as a suite in all permutations; observers must see the documented '
                 'defaults and the same records in every order; each case is run inside the suite, with --suite and beside exactly.suite and '
                 'must produce the same identifier and probe sequence, which must also equal the model of suite contents (suite first, '
-                'cleanup last, direct cases only) for all 128 subsets of suite contents.',
+                'cleanup last, direct cases only) for all 128 subsets of suite contents.'
+                ' Also: case files that are symbolic links into another directory; shared suite contents with compositions (|, &&, ||, !) and with symbol values that are ill-formed in one case / in all cases.',
         'note': _TB,
     },
     'C19': {
@@ -92,7 +99,8 @@ CHECKS = {
         'text': 'A catalogue of 57 places where a process can be started x program form x timeout history: every subprocess.call must carry '
                 'the timeout in force at that instruction (no waiting, exhaustive). Real kills: timeout=1 with a child that would sleep '
                 '30 s must give HARD_ERROR in the phase of use, cleanup marker present, sandbox removed, child pid dead and its finished '
-                'marker absent; early-exiting children must not be reported; decided on logical facts, never on wall-clock.',
+                'marker absent; early-exiting children must not be reported; decided on logical facts, never on wall-clock.'
+                ' Part F: timeout histories around a failing step ([cleanup] runs under the timeout in force at the failure).',
         'note': _TB + '; only the process Exactly itself starts; the preprocessor (no timeout) is outside the quantifier',
     },
     'C03': {
@@ -101,7 +109,8 @@ CHECKS = {
         'text': 'A valid effectful base case gets exactly one defective instruction (168 spellings of the ten defect classes + missing include) '
                 'at every phase and position (k<=2 exhaustively); the run must end 65 with the documented identifier and produce no effect '
                 'event at all; `exactly symbol FILE` on the same file must execute nothing; the same case without the defect (control) '
-                'must produce every marker, a Popen event and a sandbox, otherwise the case is inconclusive.',
+                'must produce every marker, a Popen event and a sandbox, otherwise the case is inconclusive.'
+                ' Defect spellings include definitions that refer to the symbol they define.',
         'note': _TB + '; instructions lacking their mandatory last argument (which absorb the next line) are outside the quantifier',
     },
     'C06': {
@@ -111,7 +120,8 @@ CHECKS = {
                 'chains x parenthesisations, plus seeded deeper trees with redundant parentheses, extra blanks and line breaks at permitted '
                 'places: the observed value (verdict / selected lines / output text) must be that of the generating tree under ! > && > || '
                 'and left-to-right |; probe primitives log which operands were evaluated (lazy left-to-right); token-level defects must be '
-                'rejected unless a recogniser of the documented grammar accepts them.',
+                'rejected unless a recogniser of the documented grammar accepts them.'
+                ' Text-matcher expressions are also evaluated over a model that is the output of a program.',
         'note': _TB + '; line breaks only inside parentheses; integer-matcher evaluation order unobservable',
     },
     'C10': {
@@ -120,7 +130,8 @@ CHECKS = {
         'text': 'Exit codes 0..255 x 5 places, program-symbol chains of depth 0..3 x 5 program kinds x 13 contexts, 13 actor forms x 7 stdin kinds, '
                 'argument vocabulary, executable forms x phases (1997 core cases) plus seeded compositions: every started process must '
                 'receive the argv, stdin bytes and cwd the reference denotation gives, shell commands as one verbatim string, outcome '
-                'files/assertions must reflect what the probe emitted, non-zero exit = FAIL in [assert] / HARD_ERROR elsewhere.',
+                'files/assertions must reflect what the probe emitted, non-zero exit = FAIL in [assert] / HARD_ERROR elsewhere.'
+                ' Also: stderr texts (incl. bytes that are not UTF-8) of programs run as instructions; programs terminated by a signal.',
         'note': _TB + '; constructs whose meaning the manual leaves open are not generated (see evidence assumptions)',
     },
     'C15': {
@@ -140,7 +151,8 @@ CHECKS = {
                 'mem_buff_size in {1,2,3,len-1,len,len+1,8192} is run through ~47 assertions per case grouped in families that must agree '
                 '(M, identity-wrapped M, ( M && M ), conjunct permutations reading through as_str/as_lines/as_file/external program, every '
                 'kind of expected-text source for equals). Inside every run M4 compares each observation of each text source with the '
-                'first one (value, and division into lines at \\n only).',
+                'first one (value, and division into lines at \\n only).'
+                ' Families added: identity inside chains around a text-changing transformer; stderr of programs as expected operand.',
         'note': _TB + '; one open known finding (CR LF files: universal-newline reading vs raw bytes)',
     },
     'C05': {
@@ -149,7 +161,8 @@ CHECKS = {
         'text': 'About 125 matcher primitives and 105 transformer primitives x 64 fixed texts (deterministic core) plus seeded expression-text '
                 'pairs: every assertion is emitted in the polarity the reference predicts (so a case must PASS, or FAIL at exactly the one '
                 'deliberately wrong line), transformer outputs are read from the kept sandbox and compared byte for byte; three kinds of '
-                'tested-text source and five kinds of expected-text source drive all four comparison strategies of equals.',
+                'tested-text source and five kinds of expected-text source drive all four comparison strategies of equals.'
+                ' Also: overlapping / nested -line-nums ranges; equals between files of the same size and modification time.',
         'note': _TB + '; Python re is trusted; run matchers/transformers, control characters (C14) and hostile layout (C06) are left to other checks',
     },
     'C09': {
@@ -157,7 +170,8 @@ CHECKS = {
         'technique': 'runtime monitoring: file contents / probe argv / list elements / created file names compared with an independent reader of the documented string syntax (no shlex)',
         'text': 'Every string of <=3 symbols over a 15-symbol hostile alphabet, every split into <=3 fragments, every admissible quoting '
                 '(~65000 renderings) followed by every kind of next token; all single and pairs of look-alike here-document body lines; '
-                'unterminated quotes/here-documents must be SYNTAX_ERROR located at the instruction; plus seeded longer strings.',
+                'unterminated quotes/here-documents must be SYNTAX_ERROR located at the instruction; plus seeded longer strings.'
+                ' Here-document markers cover the complete documented alphabet.',
         'note': _TB + '; quoted fragments spanning lines, CR/FF/NUL are not generated; two open known findings (mixed-quote token, here-document marker charset)',
     },
     'C11': {
@@ -176,7 +190,8 @@ CHECKS = {
                 'definitions over 46 link kinds, all phase pairs/triples x file-order permutations, duplicates incl. every builtin, '
                 '(14359 deterministic executions) plus seeded programs: rejected programs must end VALIDATION_ERROR with no effect event; '
                 'accepted programs must PASS and every probe record must equal the reference value (concatenation, splicing, absolute '
-                'paths, list-in-string joined by single blanks).',
+                'paths, list-in-string joined by single blanks).'
+                ' A quarter of the programs use symbol names with letters and digits outside ASCII.',
         'note': _TB + '; constructs the manual leaves open (lists/paths inside file names, non-literal integers) are not generated',
     },
     'C18': {
@@ -186,7 +201,8 @@ CHECKS = {
                 'run itself, mutated by token deletion/duplication/transposition/replacement, truncation at every character, quote and '
                 'here-document damage, wrong-type symbols, ill-formed and extreme integers/regexes/replacements/globs/strings, whole-file '
                 'forms and extreme structures: no exception may escape, the outcome must be a documented row, never INTERNAL_ERROR or a '
-                'traceback, a 65-outcome must name line N and show the source line, and inputs ill-formed by construction must be reported.',
+                'traceback, a 65-outcome must name line N and show the source line, and inputs ill-formed by construction must be reported.'
+                ' Also: long runs of instruction-less lines of every kind in every phase; self-referential definitions; the instructions of sampled cases contributed by a suite file to three cases.',
         'note': _TB + '; integer tokens from a closed harmless vocabulary (Exactly passes them to eval); three open known findings on extreme inputs (NUL, over-long names, 400-digit timeout)',
     },
 }
